@@ -52,9 +52,9 @@ def check(case: Dict[str, Any]) -> CaseInfo:
         for k, v in exp.items():
             require(v >= 0, "model:nonneg", f"{k}={v}")
             got = row[k]
-            require(int(got) == v and float(got) == float(v), f"value:{k}",
+            require(float(got) == float(v), f"value:{k}",
                     lambda: f"rank {rd['rank']}: expected {exp}, got {row.to_dict()}")
-        require(int(row["idle_time(us)"]) + int(row["compute_time(us)"]) + int(row["non_compute_time(us)"]) == int(row["kernel_time(us)"]),
+        require(float(row["idle_time(us)"]) + float(row["compute_time(us)"]) + float(row["non_compute_time(us)"]) == float(row["kernel_time(us)"]),
                 "partition:sum", lambda: str(row.to_dict()))
         kt = exp["kernel_time(us)"]
         if kt > 0:
@@ -87,7 +87,7 @@ def view(case):
 
 
 def campaigns(tier: str) -> List[Campaign]:
-    return [Campaign("temporal", interval_case(), check, quick=320, thorough=24000, quick_shards=8,
+    return [Campaign("temporal", interval_case(unrounded=True), check, quick=320, thorough=24000, quick_shards=8,
                      required_classes={"touching": 0.05, "nested": 0.05, "zero_length": 0.05, "multi_stream": 0.2,
                                        "multi_rank": 0.1, "nontrivial": 0.3, "rank_ids_not_0..n-1": 0.15},
                      sample_view=view)]
